@@ -302,15 +302,16 @@ func TypesFuncKey(obj *types.Func) string {
 // pinned commit); when nil every unexported same-package function is a candidate.
 var InlineOnly func(key string) bool
 
-func eligibleCallee(fd *ast.FuncDecl, obj *types.Func, info *types.Info) string {
-	if InlineOnly != nil {
-		if !InlineOnly(TypesFuncKey(obj)) {
+func eligibleCallee(fd *ast.FuncDecl, obj *types.Func, sig *types.Signature, info *types.Info) string {
+	if obj != nil {
+		if InlineOnly != nil {
+			if !InlineOnly(TypesFuncKey(obj)) {
+				return "exported"
+			}
+		} else if ast.IsExported(fd.Name.Name) {
 			return "exported"
 		}
-	} else if ast.IsExported(fd.Name.Name) {
-		return "exported"
 	}
-	sig := obj.Type().(*types.Signature)
 	if sig.Variadic() {
 		return "variadic"
 	}
@@ -320,12 +321,20 @@ func eligibleCallee(fd *ast.FuncDecl, obj *types.Func, info *types.Info) string 
 	if fd.Name.Name == "init" || fd.Name.Name == "main" {
 		return "init/main"
 	}
+	topDefer := map[*ast.DeferStmt]bool{}
+	for _, st := range fd.Body.List {
+		if d, ok := st.(*ast.DeferStmt); ok && simpleDeferredCall(d.Call) {
+			topDefer[d] = true
+		}
+	}
 	bad := ""
 	n := 0
 	ast.Inspect(fd.Body, func(nd ast.Node) bool {
 		switch x := nd.(type) {
 		case *ast.DeferStmt:
-			bad = "defer"
+			if !topDefer[x] {
+				bad = "defer"
+			}
 		case *ast.GoStmt:
 			bad = "go"
 		case *ast.BranchStmt:
@@ -340,8 +349,10 @@ func eligibleCallee(fd *ast.FuncDecl, obj *types.Func, info *types.Info) string 
 			if id, ok := x.Fun.(*ast.Ident); ok && id.Name == "recover" {
 				bad = "recover"
 			}
-			if callee, ok := typeutil.Callee(info, x).(*types.Func); ok && callee == obj {
-				bad = "recursive"
+			if obj != nil {
+				if callee, ok := typeutil.Callee(info, x).(*types.Func); ok && callee == obj {
+					bad = "recursive"
+				}
 			}
 		case ast.Stmt:
 			n++
@@ -357,6 +368,82 @@ func eligibleCallee(fd *ast.FuncDecl, obj *types.Func, info *types.Info) string 
 	return ""
 }
 
+// simpleDeferredCall: `defer x.Close()` / `defer unlock()` — no arguments, and the callee
+// expression is a chain of identifiers, so evaluating it at the exits instead of at the
+// defer statement gives the same call.
+func simpleDeferredCall(c *ast.CallExpr) bool {
+	if len(c.Args) != 0 {
+		return false
+	}
+	var chain func(e ast.Expr) bool
+	chain = func(e ast.Expr) bool {
+		switch x := e.(type) {
+		case *ast.Ident:
+			return true
+		case *ast.SelectorExpr:
+			return chain(x.X)
+		}
+		return false
+	}
+	return chain(c.Fun)
+}
+
+// closureDef finds the function literal a local variable is bound to, when the variable is
+// bound exactly once (declaration or definition) and never assigned or address-taken again.
+func closureDef(info *types.Info, host *ast.FuncDecl, v *types.Var) *ast.FuncLit {
+	var lit *ast.FuncLit
+	bad := false
+	isV := func(e ast.Expr) bool {
+		id, ok := ast.Unparen(e).(*ast.Ident)
+		if !ok {
+			return false
+		}
+		o := info.Defs[id]
+		if o == nil {
+			o = info.Uses[id]
+		}
+		return o == types.Object(v)
+	}
+	ast.Inspect(host.Body, func(n ast.Node) bool {
+		switch x := n.(type) {
+		case *ast.AssignStmt:
+			for i, l := range x.Lhs {
+				if !isV(l) {
+					continue
+				}
+				if x.Tok == token.DEFINE && len(x.Lhs) == len(x.Rhs) && lit == nil {
+					if fl, ok := x.Rhs[i].(*ast.FuncLit); ok {
+						lit = fl
+						continue
+					}
+				}
+				bad = true
+			}
+		case *ast.ValueSpec:
+			for i, nm := range x.Names {
+				if info.Defs[nm] == types.Object(v) {
+					if i < len(x.Values) && lit == nil {
+						if fl, ok := x.Values[i].(*ast.FuncLit); ok {
+							lit = fl
+							continue
+						}
+					}
+					bad = true
+				}
+			}
+		case *ast.UnaryExpr:
+			if x.Op == token.AND && isV(x.X) {
+				bad = true
+			}
+		}
+		return true
+	})
+	if bad {
+		return nil
+	}
+	return lit
+}
+
 func (in *inliner) text(file string, from, to token.Pos) string {
 	b := in.content(file)
 	return string(b[in.off(from):in.off(to)])
@@ -365,24 +452,61 @@ func (in *inliner) text(file string, from, to token.Pos) string {
 func (in *inliner) tryInline(pkg *packages.Package, file *ast.File, host *ast.FuncDecl, stmt ast.Stmt, call *ast.CallExpr,
 	decls map[*types.Func]*ast.FuncDecl, fileOf map[*ast.FuncDecl]*ast.File, edits *[]edit, imports map[string]string) bool {
 	info := pkg.TypesInfo
-	obj, ok := typeutil.Callee(info, call).(*types.Func)
-	if !ok || obj.Pkg() != pkg.Types {
+	hostFile := in.P.Fset.Position(file.Pos()).Filename
+	var (
+		obj        *types.Func
+		fd         *ast.FuncDecl
+		sig        *types.Signature
+		calleeFile string
+		calleeName string
+	)
+	if o, ok := typeutil.Callee(info, call).(*types.Func); ok {
+		if o.Pkg() != pkg.Types {
+			return false
+		}
+		obj = o
+		fd = decls[obj]
+		if fd == nil || fd == host {
+			return false
+		}
+		if IsGeneratedOrAux(strings.TrimPrefix(in.P.Fset.Position(fd.Pos()).Filename, in.P.Dir+"/")) {
+			return false // generated getters and test helpers stay calls
+		}
+		sig = obj.Type().(*types.Signature)
+		calleeFile = in.P.Fset.Position(fileOf[fd].Pos()).Filename
+		calleeName = obj.Name()
+	} else if id, ok := ast.Unparen(call.Fun).(*ast.Ident); ok && strings.HasPrefix(id.Name, "_i") {
+		// a function-typed parameter of a helper inlined in an earlier round, bound to a
+		// function literal at the (former) call site: β-reduce
+		v, ok := info.Uses[id].(*types.Var)
+		if !ok || v.Pos() < host.Pos() || v.Pos() >= host.End() {
+			return false
+		}
+		lit := closureDef(info, host, v)
+		if lit == nil {
+			return false
+		}
+		sg, ok := v.Type().Underlying().(*types.Signature)
+		if !ok {
+			return false
+		}
+		sig = sg
+		fd = &ast.FuncDecl{Name: ast.NewIdent("closure"), Type: lit.Type, Body: lit.Body}
+		calleeFile = hostFile
+		calleeName = id.Name
+		if call.Pos() >= lit.Pos() && call.Pos() < lit.End() {
+			return false // a call inside the literal itself
+		}
+	} else {
 		return false
-	}
-	fd := decls[obj]
-	if fd == nil || fd == host {
-		return false
-	}
-	if IsGeneratedOrAux(strings.TrimPrefix(in.P.Fset.Position(fd.Pos()).Filename, in.P.Dir+"/")) {
-		return false // generated getters and test helpers stay calls
 	}
 	dbg := func(why string) bool {
 		if os.Getenv("ELYSLINT_INLINE_DEBUG") != "" {
-			fmt.Fprintf(os.Stderr, "inline: %s: %s not inlined: %s\n", in.P.Pos(call.Pos()), obj.Name(), why)
+			fmt.Fprintf(os.Stderr, "inline: %s: %s not inlined: %s\n", in.P.Pos(call.Pos()), calleeName, why)
 		}
 		return false
 	}
-	if why := eligibleCallee(fd, obj, info); why != "" {
+	if why := eligibleCallee(fd, obj, sig, info); why != "" {
 		if why != "exported" {
 			dbg(why)
 		}
@@ -391,9 +515,6 @@ func (in *inliner) tryInline(pkg *packages.Package, file *ast.File, host *ast.Fu
 	if call.Ellipsis.IsValid() {
 		return false
 	}
-	sig := obj.Type().(*types.Signature)
-	hostFile := in.P.Fset.Position(file.Pos()).Filename
-	calleeFile := in.P.Fset.Position(fileOf[fd].Pos()).Filename
 	if in.content(hostFile) == nil || in.content(calleeFile) == nil {
 		return false
 	}
@@ -574,6 +695,38 @@ func (in *inliner) tryInline(pkg *packages.Package, file *ast.File, host *ast.Fu
 		rnames = append(rnames, r.name)
 	}
 	okReturns := true
+	// simple top-level defers: their calls run at every exit that lies after the statement
+	type dcall struct {
+		end  int // offset (relative to cbase) where the defer statement ends
+		text string
+	}
+	var defers []dcall
+	renamedText := func(from, to token.Pos) string {
+		a, b := in.off(from)-cbase, in.off(to)-cbase
+		var sub []edit
+		for _, e := range cedits {
+			if e.start >= a && e.end <= b {
+				sub = append(sub, edit{e.start - a, e.end - a, e.text})
+			}
+		}
+		return string(applyEdits([]byte(in.text(calleeFile, from, to)), sub))
+	}
+	for _, st := range fd.Body.List {
+		if d, ok := st.(*ast.DeferStmt); ok {
+			defers = append(defers, dcall{in.off(d.End()) - cbase, renamedText(d.Call.Pos(), d.Call.End())})
+			ds := in.off(d.Pos()) - cbase
+			cedits = append(cedits, edit{ds, ds + len("defer"), "_ = 0 //"})
+		}
+	}
+	deferredAt := func(off int) string {
+		var sb strings.Builder
+		for i := len(defers) - 1; i >= 0; i-- {
+			if defers[i].end <= off {
+				sb.WriteString(defers[i].text + "; ")
+			}
+		}
+		return sb.String()
+	}
 	var walkRet func(n ast.Node) bool
 	walkRet = func(n ast.Node) bool {
 		switch x := n.(type) {
@@ -582,7 +735,7 @@ func (in *inliner) tryInline(pkg *packages.Package, file *ast.File, host *ast.Fu
 		case *ast.ReturnStmt:
 			s := in.off(x.Pos()) - cbase
 			if len(x.Results) == 0 {
-				cedits = append(cedits, edit{s, s + len("return"), "break " + label})
+				cedits = append(cedits, edit{s, s + len("return"), deferredAt(s) + "break " + label})
 			} else {
 				if len(results) == 0 {
 					okReturns = false
@@ -590,7 +743,7 @@ func (in *inliner) tryInline(pkg *packages.Package, file *ast.File, host *ast.Fu
 				}
 				cedits = append(cedits, edit{s, s + len("return"), strings.Join(rnames, ", ") + " ="})
 				e := in.off(x.End()) - cbase
-				cedits = append(cedits, edit{e, e, "; break " + label})
+				cedits = append(cedits, edit{e, e, "; " + deferredAt(s) + "break " + label})
 			}
 		}
 		return true
@@ -599,6 +752,7 @@ func (in *inliner) tryInline(pkg *packages.Package, file *ast.File, host *ast.Fu
 	if !okReturns {
 		return false
 	}
+	tailDefers := deferredAt(cend - cbase)
 	body := string(applyEdits([]byte(in.text(calleeFile, fd.Body.Lbrace+1, fd.Body.Rbrace)), cedits))
 
 	// ---- prelude
@@ -648,7 +802,7 @@ func (in *inliner) tryInline(pkg *packages.Package, file *ast.File, host *ast.Fu
 	for _, r := range results {
 		fmt.Fprintf(&sb, "var %s %s; _ = %s; ", r.name, r.typ, r.name)
 	}
-	fmt.Fprintf(&sb, "\n%s: for {\n%s\nbreak %s }\n", label, body, label)
+	fmt.Fprintf(&sb, "\n%s: for {\n%s\n%sbreak %s }\n", label, body, tailDefers, label)
 
 	// ---- splice
 	stmtStart := in.off(stmt.Pos())
@@ -664,7 +818,7 @@ func (in *inliner) tryInline(pkg *packages.Package, file *ast.File, host *ast.Fu
 	}
 	in.n++
 	if len(in.Log) < 400 {
-		in.Log = append(in.Log, fmt.Sprintf("%s: %s inlined into %s", in.P.Pos(call.Pos()), obj.Name(), host.Name.Name))
+		in.Log = append(in.Log, fmt.Sprintf("%s: %s inlined into %s", in.P.Pos(call.Pos()), calleeName, host.Name.Name))
 	}
 	return true
 }
